@@ -376,6 +376,7 @@ type recHub struct {
 	issuedBy map[string]string // secret id -> uuid of the backend instance that issued it
 	misrouted []string         // revocations that arrived at a backend instance other than the issuing one
 	failRevoke bool
+	honourCtx  bool // a revocation arriving with a cancelled context fails (like a backend that hands ctx to its database)
 	special  map[string]*logical.Paths // by backend type name
 	nextID   int64
 	// loginAuth, if set, produces the Auth a login returns
@@ -493,6 +494,10 @@ func (b *recBE) HandleRequest(ctx context.Context, req *logical.Request) (*logic
 		id, _ := req.Secret.InternalData["id"].(string)
 		h.mu.Lock()
 		fail := h.failRevoke
+		if h.honourCtx && ctx.Err() != nil {
+			h.mu.Unlock()
+			return nil, ctx.Err()
+		}
 		if by, ok := h.issuedBy[id]; ok && by != b.uuid {
 			h.misrouted = append(h.misrouted, fmt.Sprintf("secret %s issued by mount instance %s, revocation arrived at instance %s (mount %q)", id, by, b.uuid, req.MountPoint))
 		} else if !fail {
